@@ -652,8 +652,9 @@ class ImportDB:
             d[imp.import_as].add(imp)
             for prefix in dotted_prefixes(imp.fullname)[:-1]:
                 d[prefix].add(Import.from_parts(prefix, prefix))
-        return dict( (k, tuple(sorted(v - set(self.forget_imports.imports))))
-                     for k, v in d.items())
+        forget = set(self.forget_imports.imports)
+        return dict( (k, tuple(sorted(v - forget)))
+                     for k, v in d.items() if v - forget)
 
     def __repr__(self):
         printed = self.pretty_print()
